@@ -245,6 +245,53 @@ example :
     [.added "s" ex32, .added "s" ex24, .removed "s" ex32, .removed "s" ex24, .added "s" ex32] := by
   decide
 
+/-! ### what `contrib` is, stated independently of `CalculateEndpointContribution`'s code -/
+
+theorem protoFrom_cases (p : PortProto) : protoFrom p = protoUDP ∨ protoFrom p = protoSCTP ∨ protoFrom p = protoTCP := by
+  unfold protoFrom
+  split
+  · exact Or.inl rfl
+  · split
+    · exact Or.inr (Or.inl rfl)
+    · exact Or.inr (Or.inr rfl)
+
+/-- **Characterisation of an endpoint's contribution.**  For a plain selector set (no named port)
+the members are exactly the endpoint's / network set's CIDRs.  For a named-port set with protocol
+`P` and port name `N` they are exactly the triples (address of one of its nets, L4 protocol, port
+number) for each of its named ports whose name is `N` and whose protocol is accepted for `P`
+(`protoMatches`: TCP/UDP/SCTP by number or case-insensitive name; an unspecified numeric protocol
+only for `Any`); the member's protocol is `protoFrom` of the port's protocol (UDP, SCTP, else TCP). -/
+theorem mem_contrib_iff (e : EpData) (d : IpSetData Sel) (m : Member) :
+    m ∈ contrib e d ↔
+      if d.proto = protoNone then ∃ c ∈ e.nets, m = .cidr c
+      else ∃ p ∈ e.ports, p.name = d.port ∧ protoMatches d.proto p.proto = true ∧
+        ∃ c ∈ e.nets, m = .ipp c.v6 c.addr p.port (protoFrom p.proto) := by
+  unfold contrib lookupNamedPorts
+  by_cases hp : d.proto = protoNone
+  · simp only [hp, ne_eq, not_true_eq_false, if_false, if_true, List.mem_map]
+    constructor
+    · rintro ⟨c, hc, rfl⟩; exact ⟨c, hc, rfl⟩
+    · rintro ⟨c, hc, rfl⟩; exact ⟨c, hc, rfl⟩
+  · simp only [hp, ne_eq, not_false_eq_true, if_true, if_false, List.mem_flatMap, List.mem_filterMap, List.mem_map]
+    have hmk : ∀ (c : Cidr) (p : Port), mkIPPortProto c.v6 c.addr p.port (protoFrom p.proto) =
+        .ipp c.v6 c.addr p.port (protoFrom p.proto) := by
+      intro c p
+      unfold mkIPPortProto
+      have : ¬ (p.port = 0 ∧ protoFrom p.proto = protoNone) := by
+        rintro ⟨_, h⟩
+        rcases protoFrom_cases p.proto with h' | h' | h' <;> rw [h'] at h <;> cases h
+      simp only [this, if_false]
+    constructor
+    · rintro ⟨pp, ⟨p, hp1, hp2⟩, c, hc, rfl⟩
+      split at hp2
+      · rename_i hcond
+        cases hp2
+        exact ⟨p, hp1, hcond.1, hcond.2, c, hc, (hmk c p).symm⟩
+      · cases hp2
+    · rintro ⟨p, hp1, hn, hm, c, hc, rfl⟩
+      refine ⟨(protoFrom p.proto, p.port), ⟨p, hp1, ?_⟩, c, hc, hmk c p⟩
+      simp [hn, hm]
+
 /-! ### the full statement over all histories -/
 
 theorem sumBy_pos {α : Type} {f : α → Nat} {l : List α} (h : 0 < sumBy f l) : ∃ p ∈ l, 0 < f p := by
